@@ -1152,13 +1152,17 @@ where
                 commitment_cap_rows_from_lifted::<F, EF>(builder, perm_config, &lifted_commitment)
             };
 
-            // Match native `p3_fri::verifier::open_input`: width is unused by MerkleTreeMmcs
-            // verification (only height drives grouping); see Plonky3 TODO on Dimensions.width.
+            // Match native `p3_fri::verifier::open_input`: the width of a matrix is the number of
+            // evaluations claimed at its first opening point (never the proof-supplied row); a
+            // matrix opened at no point carries no claim and keeps the opened row's own length.
             let dimensions: Vec<Dimensions> = mats
                 .iter()
-                .map(|(domain, _)| Dimensions {
+                .zip(batch_openings.iter())
+                .map(|((domain, points_and_values), opening)| Dimensions {
                     height: 1 << (domain.log_size() + log_blowup),
-                    width: 0,
+                    width: points_and_values
+                        .first()
+                        .map_or(opening.len(), |(_, values)| values.len()),
                 })
                 .collect();
 
